@@ -12,7 +12,7 @@ PROPERTY = "C22"
 LEVEL = "model_checking"
 RULE = (
     "inputs = bounded ARGs with n in {2,4} samples paired into contemporary diploid individuals x mutation patterns with >=1 singleton "
-    "x ALL 2^s assignments of the s singletons (s<=7) to one of their individual's two nodes x rescaling {off, 2 intervals}. oracle: "
+    "x ALL 2^s assignments of the s singletons (s<=7) to one of their individual's two nodes x rescaling {off, 2 intervals, 2 intervals matching segregating sites}. oracle: "
     "(i) with singletons_phased=False an output mutation's node differs from the input's only for mutations on individuals' nodes and only "
     "by moving to the sibling node; (ii) with singletons_phased=True no mutation node changes; (iii) all phase assignments of one input "
     "give the same node times, posterior moments, mutation times and final mutation placement (1e-9). one evaluation = one dating call; "
@@ -68,13 +68,13 @@ def run(case):
     viol, tags, keys = [], {}, []
     evals = 0
     cid = f"{case['arg']['id']}|{case['mut']}"
-    for resc in (0, 2):
+    for resc, seg in ((0, False), (2, False), (2, True)):
         base = None
         for flips in itertools.product((0, 1), repeat=case["s"]):
             ts = rephase(ts0, flips)
-            sub = {"flips": list(flips), "rescaling_intervals": resc}
+            sub = {"flips": list(flips), "rescaling_intervals": resc, "match_segregating_sites": seg}
             evals += 1
-            ok, o = meta.outputs("variational_gamma", ts, 1.0, {"rescaling_intervals": resc, "singletons_phased": False})
+            ok, o = meta.outputs("variational_gamma", ts, 1.0, {"rescaling_intervals": resc, "singletons_phased": False, "match_segregating_sites": seg})
             if not ok:
                 k = f"no_return:{classify_exc(o)}"
                 tags[k] = tags.get(k, 0) + 1
